@@ -30,6 +30,13 @@ Errors(r) ==
     IN IF "dc_result" \notin DOMAIN g THEN {}
        ELSE (IF g.dc_result \in {"panic", "hang", "budget"} THEN {<<"NotTotal", g.dc_result>>} ELSE {})
        \cup (IF tooBig /\ g.dc_result = "ok" THEN {<<"RangeNotRejected">>} ELSE {})
+       \* on the wire: no DC register of a SubDevice that does not support DC or did not ask for a sync signal is written
+       \cup (IF "dc_config_writes" \in DOMAIN g
+             THEN {<<"UnselectedDeviceWritten", g.dc_config_writes[j]>> :
+                     j \in {j \in 1..Len(g.dc_config_writes) :
+                              g.dc_config_writes[j][2] >= 2304 /\ g.dc_config_writes[j][2] < 2560      \* 0x0900..0x09FF
+                              /\ ~(\E i \in 1..n : r.devices[i].station = g.dc_config_writes[j][1] /\ wanted(i))}}
+             ELSE {})
        \* a set-up whose times fit must succeed: failing it (for instance because a SubDevice without DC was
        \* written to and did not acknowledge) is not an option the property leaves
        \cup (IF ~tooBig /\ g.dc_result \notin {"ok", "panic", "hang", "budget"}
